@@ -49,25 +49,41 @@ func TestC09Lab(t *testing.T) {
 		if nontrivial && st.WantSample() {
 			st.Sample(map[string]any{"case": c, "history_tail": historyLines(tail(res.Events, 30))})
 		}
-		var vs []lab.Violation
-		for _, v := range lab.CheckWedge(res) {
-			v.Prop = "C09"
-			v.Key = strings.Replace(v.Key, "C11/wedge/", "C09/lab/wedge/", 1) + "/" + shape
-			vs = append(vs, v)
-		}
-		if len(vs) > 0 {
+		vs := c09LabOracle(res, m, h)
+		if res.Wedged {
 			res.Events = append(res.Events, lab.Event{Kind: lab.EvNote, Src: -1, Seq: -1, Info: "STACKS:\n" + res.Stacks})
-		}
-		// accounting survives a hostile DESTINATION reply (the fate model knows these shapes); for
-		// hostile source positions and processor results only crash and wedge are judged here (the
-		// direct parts of this property judge their accounting)
-		if c.Hostile == "" || strings.HasPrefix(c.Hostile, "dst-") {
-			for _, v := range h.CheckC01() {
-				v.Prop = "C09"
-				v.Key = "C09/lab/" + strings.TrimPrefix(v.Key, "C01/") + "/" + shape
-				vs = append(vs, v)
-			}
 		}
 		failOn(t, st, res, vs)
 	})
 }
+
+
+func c09LabOracle(res *lab.Result, m *lab.Model, h *lab.History) []lab.Violation {
+	c := res.Case
+	shape := c.Hostile
+	if shape == "" {
+		shape = "none"
+	}
+	var vs []lab.Violation
+	for _, v := range lab.CheckWedge(res) {
+		v.Prop = "C09"
+		v.Key = strings.Replace(v.Key, "C11/wedge/", "C09/lab/wedge/", 1) + "/" + shape
+		vs = append(vs, v)
+	}
+	// accounting survives a hostile DESTINATION reply (the fate model knows these shapes); for
+	// hostile source positions and processor results only crash and wedge are judged here (the
+	// direct parts of this property judge their accounting)
+	if c.Hostile == "" || strings.HasPrefix(c.Hostile, "dst-") {
+		for _, v := range h.CheckC01() {
+			v.Prop = "C09"
+			v.Key = "C09/lab/" + strings.TrimPrefix(v.Key, "C01/") + "/" + shape
+			vs = append(vs, v)
+		}
+	}
+	return vs
+}
+
+func init() { extraLabOracles["C09"] = c09LabOracle }
+
+// TestReplayLabC09 re-executes a replay written by the lab part (the direct parts have their own in p09).
+func TestReplayLabC09(t *testing.T) { replayLab(t, "C09") }
